@@ -67,7 +67,13 @@ def hard_float(L, k, j):
     return x
 
 
-def build(cls, n, nan, variant):
+def wire_float(L, k, j):
+    """like hard_float but small enough for every fixed-point wire field (centi-units in int16 etc.)"""
+    return float((13 * L + k) % 250) + FRACTIONS[(L + k + j) % len(FRACTIONS)]
+
+
+def build(cls, n, nan, variant, wire=False):
+    """wire=True: integers small enough for every wire field (the messages are going to be packed)"""
     msgs = []
     for i in range(n):
         m = cls()
@@ -100,13 +106,13 @@ def build(cls, n, nan, variant):
             elif isinstance(v, (bool, np.bool_)):
                 nv = bool((L + i) % 2 == 0)
             elif isinstance(v, (int, np.integer)):
-                nv = 2 ** 31 + (7 * L + i) % 200 + 1       # beyond int32 and beyond the integers exact in binary32; fits uint32
+                nv = ((7 * L + i) % 100 + 1) if wire else (2 ** 31 + (7 * L + i) % 200 + 1)   # beyond int32 / binary32-exact integers; fits uint32
             elif isinstance(v, (float, np.floating)):
-                nv = hard_float(L, i, 0)
+                nv = wire_float(L, i, 0) if wire else hard_float(L, i, 0)
             elif isinstance(v, np.ndarray) and v.dtype.kind in 'fiu' and v.size > 0:
                 nv = v.copy()
                 for j in range(nv.size):
-                    nv.flat[j] = (int(np.iinfo(v.dtype).max) - (7 * L + 17 * i + j) % 120) if v.dtype.kind in 'iu' else hard_float(L, 10 * i + j, j)
+                    nv.flat[j] = (int(np.iinfo(v.dtype).max) - (7 * L + 17 * i + j) % 120) if v.dtype.kind in 'iu' else (wire_float(L, 10 * i + j, j) if wire else hard_float(L, 10 * i + j, j))
             else:
                 continue
             set_path(m, path, nv)
@@ -124,6 +130,9 @@ def numeric(v):
         return np.float64(v)
     if isinstance(v, np.ndarray) and v.dtype.kind in 'fiub':
         return v.astype(np.float64)
+    if isinstance(v, (list, tuple)) and len(v) > 0 and all(isinstance(x, (int, float, np.integer, np.floating)) and
+                                                           not isinstance(x, bool) for x in v):
+        return np.array(v, dtype=np.float64)       # a decoded message holds construct ListContainers where Python code holds arrays
     return None
 
 
@@ -147,17 +156,89 @@ def flat_repr(a):
     return ['nan' if (isinstance(x, (float, np.floating)) and math.isnan(x)) else repr(x.item() if hasattr(x, 'item') else x) for x in np.asarray(a).flat]
 
 
+def through_wire(cls, msgs, rep):
+    """the pack -> unpack image of the messages ('unpack'), or what FusionEngineDecoder returns for their encoding ('decoder')"""
+    if rep == 'unpack':
+        out = []
+        for m in msgs:
+            data = m.pack()
+            d = cls()
+            d.unpack(data, 0) if cls is MeasurementDetails else d.unpack(buffer=data, offset=0)
+            out.append(d)
+        return out
+    from fusion_engine_client.parsers import FusionEngineEncoder, FusionEngineDecoder
+    enc, dec = FusionEngineEncoder(), FusionEngineDecoder()
+    blob = b''.join(enc.encode_message(m) for m in msgs)
+    res = dec.on_data(blob) if blob else []
+    out = [r[1] for r in res]
+    if len(out) != len(msgs) or any(type(o) is not cls for o in out):
+        raise ValueError('decoder returned %d of %d messages' % (len(out), len(msgs)))
+    return out
+
+
+def python_twin(cls, decoded):
+    """a message assembled in Python holding the same field values as the decoded one (arrays where the default
+    instance has arrays)"""
+    t = cls()
+    for path, dv in list(leaves(t)):
+        v = get_path(decoded, path)
+        if isinstance(dv, np.ndarray) and not isinstance(v, np.ndarray):
+            v = np.array(v, dtype=dv.dtype)
+        set_path(t, path, v)
+    return t
+
+
 def run(req):
+    if 'history' in req:
+        return run_history(req)
     cls = CLASSES[req['cls']]
     n, nan, variant = req['n'], set(req.get('nan', [])), req.get('variant', 0)
-    msgs = build(cls, n, nan, variant)
+    rep = req.get('rep', 'python')
+    msgs = build(cls, n, nan, variant, wire=(rep != 'python'))
+    twins = None
+    if rep != 'python':
+        try:
+            msgs = through_wire(cls, msgs, rep)
+            twins = [python_twin(cls, m) for m in msgs]
+        except Exception as e:
+            return {'skipped': 'cannot take %s through %s: %s' % (cls.__name__, rep, type(e).__name__), 'issues': [], 'arrays': {},
+                    'stats': {}, 'keys': []}
     # the time axis of each output is a property of the class: found on two plain message lists of lengths 5 and 6
     ref6 = build(cls, 6, set(), 0)
     ref_a, ref_b = cls.to_numpy(ref6[:5]), cls.to_numpy(ref6)
+    if twins is not None:
+        # decoded objects can carry attributes a Python-built object does not have (lengths, construct bookkeeping): their
+        # outputs get their axis from decoded reference lists
+        try:
+            w6 = through_wire(cls, build(cls, 6, set(), 0, wire=True), rep)
+            wa, wb = cls.to_numpy(w6[:5]), cls.to_numpy(w6)
+            for k in wb:
+                if k not in ref_b:
+                    ref_b[k] = wb[k]; ref_a[k] = wa.get(k)
+        except Exception:
+            pass
     issues, stats = [], {'same_named': 0, 'time_dependent': 0, 'ntd': 0, 'table_rows': 0, 'skipped_non_numeric': 0}
     out = cls.to_numpy(msgs)
     if not isinstance(out, dict):
         return {'issues': [{'kind': 'not-a-dict', 'key': ''}], 'arrays': {}, 'stats': stats}
+    if twins is not None:
+        # conversion must depend on the field values only, not on the container types a decoded message happens to hold
+        try:
+            out_t = cls.to_numpy(twins)
+        except Exception as e:
+            out_t = None
+        if isinstance(out_t, dict):
+            stats['compared_with_python_built_twin'] = 0
+            for k in sorted(set(out) & set(out_t)):
+                if k == '__metadata__':
+                    continue
+                a, b = out.get(k), out_t.get(k)
+                if isinstance(a, np.ndarray) or isinstance(b, np.ndarray):
+                    stats['compared_with_python_built_twin'] += 1
+                    sa, sb = list(getattr(a, 'shape', ())), list(getattr(b, 'shape', ()))
+                    if not (isinstance(a, np.ndarray) and isinstance(b, np.ndarray) and sa == sb and flat_repr(a) == flat_repr(b)):
+                        issues.append({'kind': 'output-depends-on-field-container-type', 'key': k, 'representation': rep,
+                                       'shape_decoded_messages': sa, 'shape_python_built_messages': sb, 'n': n})
     ntd = list(out.get('__metadata__', {}).get('not_time_dependent', [])) if isinstance(out.get('__metadata__'), dict) else []
     top = vars(msgs[0]) if n else vars(cls())
     det = getattr(msgs[0] if n else cls(), 'details', None) if 'details' in top else None
@@ -310,6 +391,73 @@ def run(req):
             arrays['__ntd__'] = ntd
             arrays['__dropped__'] = trimmed
     return {'issues': issues, 'arrays': arrays, 'stats': stats, 'keys': [k for k in out if k != '__metadata__']}
+
+
+def set_times(m, t):
+    for path, v in list(leaves(m)):
+        if path[-1] == 'p1_time' and isinstance(v, Timestamp):
+            set_path(m, path, Timestamp(t))
+
+
+def get_time(m):
+    for path, v in leaves(m):
+        if path[-1] == 'p1_time' and isinstance(v, Timestamp):
+            return float(v)
+    return float('nan')
+
+
+def run_history(req):
+    """several conversions of ONE MessageData whose message list changes in between: afterwards every array attribute
+    must describe the current messages"""
+    h = req['history']
+    cls = CLASSES[h['cls']]
+    n, t0, dt, op = h['n'], h['t0'], h['dt'], h['op']
+    pool = build(cls, 2 * n + 2, set(), 0)
+    for i, m in enumerate(pool[:n + 1]):
+        set_times(m, t0 + i * dt)
+    for i, m in enumerate(pool[n + 1:]):
+        set_times(m, t0 + h.get('shift', dt) + i * dt)
+    md = MessageData(cls.MESSAGE_TYPE, None)
+    for m in pool[:n]:
+        md.add_message(m)
+    md.to_numpy(remove_nan_times=True)
+    issues = []
+    if op == 'slide':
+        md.messages = md.messages[1:] + [pool[n]]
+    elif op == 'slide-add':
+        md.messages.pop(0)
+        md.add_message(pool[n])
+    elif op == 'replace-shifted':
+        md.messages = pool[n + 1:2 * n + 1]
+    elif op == 'replace-middle':
+        # same first and last objects, different ones in between (times of the replaced ones kept)
+        mid = pool[n + 1:2 * n - 1]
+        for m, old in zip(mid, md.messages[1:-1]):
+            set_times(m, get_time(old))
+        md.messages = [md.messages[0]] + mid + [md.messages[-1]]
+    elif op == 'append':
+        md.add_message(pool[n])
+    elif op == 'same':
+        pass
+    try:
+        md.to_numpy(remove_nan_times=True)
+    except Exception as e:
+        return {'issues': [{'kind': 'repeated-conversion-raises', 'key': '*', 'op': op, 'exception': type(e).__name__, 'text': str(e)[:160],
+                            'n': n, 't0': t0, 'dt': dt}], 'arrays': {}, 'stats': {}, 'keys': []}
+    want = cls.to_numpy(md.messages)
+    bad = []
+    for k, v in want.items():
+        if not isinstance(v, np.ndarray):
+            continue
+        got = getattr(md, k, None)
+        if not (isinstance(got, np.ndarray) and got.shape == v.shape and flat_repr(got) == flat_repr(v)):
+            bad.append(k)
+    if bad:
+        issues.append({'kind': 'arrays-do-not-describe-the-current-messages', 'key': '*', 'op': op, 'stale_keys': bad[:6],
+                       't0': t0, 'dt': dt, 'n': n,
+                       'first_last_time_changed': op not in ('replace-middle', 'same')})
+    return {'issues': issues, 'arrays': {}, 'stats': {'history_arrays': sum(1 for v in want.values() if isinstance(v, np.ndarray))},
+            'keys': list(want)}
 
 
 def listing():
